@@ -16,7 +16,8 @@ DECLARED = {
 # initialiser kinds that cannot take part in a containment cycle (one line of reason each)
 CANNOT_CYCLE = {
     "None": "no type reference",
-    "Simple": "produced for elementary types with a constant initial value (`a : INT := 5`; elementary types have no members) and for VAR_EXTERNAL references (see the reference-kind clause: they must not add an edge)",
+    # "Simple" was listed here until round 9 ("elementary types with a constant initial value"): wrong - `x : B := 1` with B a user type is a
+    # Simple initialiser too (simple_specification accepts a type name).  It is a known finding now, see known_findings.json.
     "String": "STRING/WSTRING have no members",
     "EnumeratedValues": "inline enumeration: no reference to another declaration",
     "EnumeratedType": "refers to an enumeration; enumerations have no members, so no cycle can pass through them",
